@@ -265,6 +265,14 @@ class LocalDateTimePattern(IPattern[LocalDateTime], metaclass=_CombinedMeta):
         self.__two_digit_year_max = two_digit_year_max
         return self
 
+    @property
+    def pattern_text(self) -> str:
+        """Gets the pattern text for this pattern, as supplied on creation.
+
+        :return: The pattern text for this pattern, as supplied on creation.
+        """
+        return self.__pattern_text
+
     def parse(self, text: str) -> ParseResult[LocalDateTime]:
         """Parses the given text value according to the rules of this pattern.
 
